@@ -1,3 +1,4 @@
+from rtamt.semantics.arithmetic import saturating
 import math
 from rtamt.semantics.abstract_dense_time_online_operation import AbstractDenseTimeOnlineOperation
 
@@ -13,7 +14,7 @@ class ExpOperation(AbstractDenseTimeOnlineOperation):
 
         for i in sample:
             out_time = i[0]
-            out_value = math.exp(i[1])
+            out_value = saturating.exp(i[1])
             sample_result.append([out_time, out_value])
 
         return sample_result
